@@ -206,10 +206,11 @@ def audit(audit_file, allow_axioms=(), timeout=600):
                 continue
             else:
                 inax = False
+    names = re.findall(r"\bPrint\s+Assumptions\s+([\w.']+?)\s*\.", src)
     bad = sorted(a for a in axioms if a not in set(allow_axioms))
     ok = p.returncode == 0 and (n_closed + n_ax_blocks) == n_expected and not bad
     return {"ok": ok, "returncode": p.returncode, "n_print": n_closed + n_ax_blocks, "n_expected": n_expected,
-            "n_pins": n_pins, "axioms": axioms, "bad_axioms": bad, "log": (p.stdout[-3000:] + p.stderr[-3000:])}
+            "n_pins": n_pins, "theorems": names, "axioms": axioms, "bad_axioms": bad, "log": (p.stdout[-3000:] + p.stderr[-3000:])}
 
 
 HEADER = "Set Printing Width 10000000.\nSet Printing Depth 10000000.\n"
@@ -302,3 +303,25 @@ def g_opt(x, f=str):
 def g_str(s):
     assert all(32 <= ord(c) < 127 for c in s), s
     return '"%s"%%string' % s.replace('"', '""')
+
+
+def prove(run, targets, audit_file, allow_axioms=()):
+    """Standard proof obligations of a check: banned-construct scan, full build of the
+    targets, audit (statement pins + Print Assumptions) -- one obligation per audited theorem."""
+    hits = banned_scan()
+    run.oblige("no Admitted/admit/Axiom/Parameter/guard-off anywhere in coq/", not hits, str(hits[:5]))
+    ok, lg = make(targets)
+    run.oblige("coqc (full .vo) " + " ".join(targets), ok, lg[-3000:])
+    run.checker_cmd = "coqc 8.16.1 (full .vo, via vplib/coqtools.make) %s; coqc coq/audit/%s" % (" ".join(targets), audit_file)
+    if not ok:
+        return False
+    a = audit(audit_file, allow_axioms=allow_axioms)
+    run.axioms |= a["axioms"]
+    if a["ok"]:
+        for n in a["theorems"]:
+            run.oblige("theorem %s: statement pinned (Check) and assumptions within the allow-list" % n, True)
+    else:
+        run.oblige("audit %s (%d Check pins, %d/%d Print Assumptions answered, disallowed axioms %s)" % (
+            audit_file, a["n_pins"], a["n_print"], a["n_expected"], a["bad_axioms"]), False, a["log"])
+    run.extra["theorems_audited"] = a["theorems"]
+    return a["ok"]
